@@ -153,4 +153,69 @@ theorem rawDotPath_snoc (rm : Option Part) (above dirs : List Part) (name : Part
   simp only [hlast, hdl]
   cases rm <;> rfl
 
+/-! ### the dotted path determines the file (injectivity on plain modules) -/
+
+theorem split_dot : ∀ (p q r s : Part), '.' ∉ p → '.' ∉ q →
+    p ++ '.' :: r = q ++ '.' :: s → p = q ∧ r = s := by
+  intro p
+  induction p with
+  | nil =>
+    intro q r s _ hq h
+    cases q with
+    | nil => simpa using h
+    | cons d ds =>
+      simp at h
+      exact absurd h.1 (fun e => hq (e ▸ List.mem_cons_self))
+  | cons c cs ih =>
+    intro q r s hp hq h
+    cases q with
+    | nil =>
+      simp at h
+      exact absurd h.1.symm (fun e => hp (e ▸ List.mem_cons_self))
+    | cons d ds =>
+      simp only [List.cons_append, List.cons.injEq] at h
+      have := ih ds r s (fun m => hp (List.mem_cons_of_mem _ m))
+        (fun m => hq (List.mem_cons_of_mem _ m)) h.2
+      exact ⟨by rw [h.1, this.1], this.2⟩
+
+theorem joinDots_ne_nil (p : Part) (ps : List Part) (hp : p ≠ []) : joinDots (p :: ps) ≠ [] := by
+  cases ps with
+  | nil => simpa [joinDots] using hp
+  | cons q qs => simp [joinDots, hp]
+
+/-- Joining dot-free non-empty parts by dots loses nothing: the parts can be read back. -/
+theorem joinDots_injective : ∀ (ps qs : List Part), (∀ p ∈ ps, PlainPart p) →
+    (∀ q ∈ qs, PlainPart q) → joinDots ps = joinDots qs → ps = qs := by
+  intro ps
+  induction ps with
+  | nil =>
+    intro qs _ hq h
+    cases qs with
+    | nil => rfl
+    | cons q qs => exact absurd h.symm (joinDots_ne_nil q qs (hq q (by simp)).1)
+  | cons p ps ih =>
+    intro qs hp hq h
+    cases qs with
+    | nil => exact absurd h (joinDots_ne_nil p ps (hp p (by simp)).1)
+    | cons q qs =>
+      have hpp := hp p (by simp)
+      have hqq := hq q (by simp)
+      cases ps with
+      | nil =>
+        cases qs with
+        | nil => simp [joinDots] at h; rw [h]
+        | cons q' qs' =>
+          simp only [joinDots] at h
+          exact absurd (h ▸ (by simp : '.' ∈ q ++ '.' :: joinDots (q' :: qs'))) hpp.2
+      | cons p' ps' =>
+        cases qs with
+        | nil =>
+          simp only [joinDots] at h
+          exact absurd (h ▸ (by simp : '.' ∈ p ++ '.' :: joinDots (p' :: ps'))) hqq.2
+        | cons q' qs' =>
+          simp only [joinDots] at h
+          have := split_dot p q _ _ hpp.2 hqq.2 h
+          have ht := ih (q' :: qs') (fun x hx => hp x (List.mem_cons_of_mem _ hx))
+            (fun x hx => hq x (List.mem_cons_of_mem _ hx)) this.2
+          rw [this.1, ht]
 end Djc.Proofs.Discover
